@@ -104,13 +104,18 @@ pub fn parse_run(s: &str) -> Value {
                                 let quoted = guarded(|| unq.is_quoted());
                                 // at every position of the iterator the copy-on-write form equals what the
                                 // character iterator still yields
+                                // (for values of thousands of characters: at 64 evenly spaced positions, the
+                                // comparison itself being linear in what is left)
+                                let stride = raw.as_ref().map(|r| r.len() / 64).unwrap_or(0).max(1);
                                 let mid_ok = guarded(|| {
                                     let mut u = unq.clone();
                                     let mut k = 0usize;
                                     loop {
-                                        let rest: String = u.clone().collect();
-                                        if u.to_cow() != rest || u.to_string() != rest {
-                                            return false;
+                                        if k % stride == 0 {
+                                            let rest: String = u.clone().collect();
+                                            if u.to_cow() != rest || u.to_string() != rest {
+                                                return false;
+                                            }
                                         }
                                         k += 1;
                                         if u.next().is_none() || k > budget {
@@ -407,6 +412,34 @@ pub fn rec_link(args: &Args) {
         for _ in 0..(if thorough { 20000 } else { 1500 }) {
             let s = if r.chance(1, 2) { random_text(&mut r, STRUCT, 30) } else { random_text(&mut r, WIDE, 30) };
             out.ev(json!({"op": "parse", "s": cps(&s), "run": parse_run(&s)}));
+        }
+        // long inputs (recursion depth, caps, quadratic blow-ups that turn into stalls): evaluated natively,
+        // an anomaly - or the process dying - is what gets reported; a healthy run leaves one short summary
+        {
+            let ws = |n: usize| " \t\n".chars().cycle().take(n).collect::<String>();
+            let longs: Vec<String> = vec![
+                format!("{}<a>", ws(300_000)),
+                format!("<a>,{}<b>;k=v", ws(300_000)),
+                format!("<{}>;k=v", "t".repeat(200_000)),
+                format!("<a>;k=\"{}\"", "v\\\"é".repeat(50_000)),
+                format!("<a>;k={}", "v".repeat(200_000)),
+                format!("<a>{}", ";k=v".repeat(50_000)),
+                "<a>;k=v,".repeat(30_000),
+                format!("<a>;k=\"{}", "x".repeat(200_000)),
+                ";".repeat(100_000),
+                format!("<a>;{}=v", "k".repeat(200_000)),
+            ];
+            for s in &longs {
+                swept += 1;
+                let t_dbg = std::time::Instant::now();
+                let run = parse_run(s);
+                if std::env::var("CLV_TIMING").is_ok() { eprintln!("long input {} bytes: {:?}", s.len(), t_dbg.elapsed()); }
+                if !run_unremarkable(&run) {
+                    forwarded += 1;
+                    let head: String = s.chars().take(60).collect();
+                    out.ev(json!({"op": "parse", "s": cps(&head), "run": {"panicked": run["panicked"], "nonterm": run["nonterm"], "after_err": run["after_err"], "items": []}, "long": s.len()}));
+                }
+            }
         }
         // directed: unquote corner cases as attribute values
         for v in ["\"", "\"a", "\"a\"b", "\"\\", "\"\\\"", "\"a\\", "\"\"", "\"\"\"", "a\"b", "\" \"", "\"a\" b", "\\", "\"\\\\\"x", "\"é", "\"😁\"é"] {
